@@ -1,73 +1,156 @@
 """translator for the Box area: statement-level facts of hio.base.hier.boxing that the hand-written model
 relies on, read from the source AST *now* and emitted as Lean data (lean/Box/HioModel/Gen/BoxTables.lean).
-Theorems in Props/C25.lean (`gen_*`) re-check them against what the model assumes."""
+Theorems in Props/C25.lean (`gen_*`) re-check them against what the model assumes.
+
+Everything is normalised so that renaming a local variable does not change the tables: variables are replaced
+by the position they were unpacked from, slices / reversals by a small vocabulary; an unrecognised shape is
+emitted as "unknown" (the `gen_*` theorem then fails and the run proceeds as for a broken proof)."""
 import ast
 import os
 from .. import core
 
 
-def _names(node):
-    return [e.id if isinstance(e, ast.Name) else ast.unparse(e) for e in node.elts]
-
-
 def _find(cls, name):
+    if cls is None:
+        return None
     for n in cls.body:
         if isinstance(n, ast.FunctionDef) and n.name == name:
             return n
-    raise core.Infra(f"boxing.py: no method {name} in {cls.name}")
+    return None
 
 
 def _loops(fn):
-    """attribute names iterated by the for loops of a Box nabe method, in order"""
+    """attribute names iterated by the top-level for loops of a Box nabe method, in order"""
     out = []
-    for n in fn.body:
+    for n in (fn.body if fn else []):
         if isinstance(n, ast.For) and isinstance(n.iter, ast.Attribute):
             out.append(n.iter.attr)
     return out
 
 
+def _self_call(node):
+    """(method, args) when node is `self.<method>(args…)`"""
+    if isinstance(node, ast.Call) and isinstance(node.func, ast.Attribute) and isinstance(node.func.value, ast.Name) \
+            and node.func.value.id == "self":
+        return node.func.attr, node.args
+    return None
+
+
+def _strip_list(e):
+    while isinstance(e, ast.Call) and isinstance(e.func, ast.Name) and e.func.id == "list" and len(e.args) == 1:
+        e = e.args[0]
+    return e
+
+
+def _slice_word(e, idxvar, names):
+    """classify  [list(reversed(]X[i:] / X[:i]  with X one of the two pile variables"""
+    e = _strip_list(e)
+    rev = False
+    if isinstance(e, ast.Call) and isinstance(e.func, ast.Name) and e.func.id == "reversed" and len(e.args) == 1:
+        rev = True
+        e = _strip_list(e.args[0])
+    if isinstance(e, ast.Subscript) and isinstance(e.value, ast.Name) and isinstance(e.slice, ast.Slice) and e.slice.step is None:
+        lo, hi = e.slice.lower, e.slice.upper
+        who = names.get(e.value.id)
+        if who and isinstance(lo, ast.Name) and lo.id == idxvar and hi is None:
+            return ("rev-" if rev else "") + who + "-from-i"
+        if who and lo is None and isinstance(hi, ast.Name) and hi.id == idxvar:
+            return ("rev-" if rev else "") + who + "-to-i"
+    return "unknown"
+
+
+def _pile_word(e):
+    """classify an expression denoting the active pile, possibly reversed"""
+    e = _strip_list(e)
+    rev = False
+    if isinstance(e, ast.Call) and isinstance(e.func, ast.Name) and e.func.id == "reversed" and len(e.args) == 1:
+        rev = True
+        e = _strip_list(e.args[0])
+    if isinstance(e, ast.Subscript) and isinstance(e.slice, ast.Slice) and e.slice.lower is None and e.slice.upper is None \
+            and isinstance(e.slice.step, ast.UnaryOp) and isinstance(e.slice.step.op, ast.USub) \
+            and isinstance(e.slice.step.operand, ast.Constant) and e.slice.step.operand.value == 1:
+        rev = not rev
+        e = e.value
+    if ast.unparse(e) == "self.box.pile":
+        return "rev-active-pile" if rev else "active-pile"
+    return "unknown"
+
+
 def _lst(xs):
-    return "[" + ", ".join('"' + x.replace('"', "'") + '"' for x in xs) + "]"
+    return "[" + ", ".join('"' + str(x).replace('"', "'") + '"' for x in xs) + "]"
 
 
 def extract():
     path = os.path.join(core.REPO, "src", "hio", "base", "hier", "boxing.py")
     tree = ast.parse(open(path).read())
     classes = {n.name: n for n in tree.body if isinstance(n, ast.ClassDef)}
-    boxer, box = classes["Boxer"], classes["Box"]
+    boxer, box = classes.get("Boxer"), classes.get("Box")
     run = _find(boxer, "run")
-    # the tuple the transition block unpacks exen's result into, and the argument exen is called with
-    unpack, exen_args = [], []
-    calls_in_block = []   # self.<m>(<arg>) calls inside the `if dest := goact()` block
-    after_loop = []       # self.<m>(...) calls after the for loop in the while body
-    for n in ast.walk(run):
-        if isinstance(n, ast.Assign) and isinstance(n.value, ast.Call) and ast.unparse(n.value.func) == "self.exen":
-            unpack = _names(n.targets[0])
-            exen_args = [ast.unparse(a) for a in n.value.args]
-    for w in ast.walk(run):
-        if isinstance(w, ast.While):
-            for st in w.body:
-                if isinstance(st, ast.Expr) and isinstance(st.value, ast.Call) and ast.unparse(st.value.func).startswith("self."):
-                    after_loop.append(ast.unparse(st.value))
-            for n in ast.walk(w):
-                if isinstance(n, ast.If) and isinstance(n.test, ast.NamedExpr):
-                    for st in n.body:
-                        if isinstance(st, ast.Expr) and isinstance(st.value, ast.Call):
-                            calls_in_block.append(ast.unparse(st.value))
-    # exen's return tuple
+
+    # --- the transition block of run(): where each list handed to exdo/rexdo/rendo/endo comes from
+    pos = {}            # variable name -> position in the tuple unpacked from self.exen(...)
+    exen_near = "unknown"
+    block_calls, after_calls = [], []
+    if run is not None:
+        for n in ast.walk(run):
+            if isinstance(n, ast.Assign) and _self_call(n.value) and _self_call(n.value)[0] == "exen" \
+                    and isinstance(n.targets[0], ast.Tuple):
+                pos = {e.id: k for k, e in enumerate(n.targets[0].elts) if isinstance(e, ast.Name)}
+                args = _self_call(n.value)[1]
+                if args:
+                    exen_near = "active-box" if ast.unparse(args[0]) == "self.box" else \
+                                ("scanned-box" if isinstance(args[0], ast.Name) else "unknown")
+
+        def word(m, args):
+            if not args:
+                return m
+            a = args[0]
+            if isinstance(a, ast.Name) and a.id in pos:
+                return f"{m}<-{pos[a.id]}"
+            return f"{m}<-unknown"
+        for w in ast.walk(run):
+            if isinstance(w, ast.While):
+                for st in w.body:
+                    if isinstance(st, ast.Expr) and _self_call(st.value):
+                        after_calls.append(word(*_self_call(st.value)))
+                for n in ast.walk(w):
+                    if isinstance(n, ast.If) and isinstance(n.test, ast.NamedExpr):
+                        for st in n.body:
+                            if isinstance(st, ast.Expr) and _self_call(st.value):
+                                block_calls.append(word(*_self_call(st.value)))
+                            elif isinstance(st, ast.If) and any(isinstance(x, ast.Expr) and _self_call(x.value)
+                                                                 for x in ast.walk(st) if isinstance(x, ast.Expr)):
+                                block_calls.append("conditional-call")
+    # --- exen's return tuple
     ex = _find(boxer, "exen")
     ret = []
-    for n in ast.walk(ex):
-        if isinstance(n, ast.Return) and isinstance(n.value, ast.Tuple):
-            ret = [ast.unparse(e) for e in n.value.elts]
+    if ex is not None:
+        names = {}
+        idxvar = None
+        for n in ast.walk(ex):
+            if isinstance(n, ast.Assign) and isinstance(n.targets[0], ast.Name) and isinstance(n.value, ast.Attribute) \
+                    and n.value.attr == "pile" and isinstance(n.value.value, ast.Name):
+                arg_names = [a.arg for a in ex.args.args]
+                if n.value.value.id in arg_names:
+                    names[n.targets[0].id] = ("nears", "fars")[min(arg_names.index(n.value.value.id), 1)]
+            if isinstance(n, ast.For) and isinstance(n.target, ast.Name):
+                idxvar = n.target.id
+        for n in ast.walk(ex):
+            if isinstance(n, ast.Return) and isinstance(n.value, ast.Tuple):
+                ret = [_slice_word(e, idxvar, names) for e in n.value.elts]
+    # --- end()
     end = _find(boxer, "end")
-    end_calls = [ast.unparse(st.value) for st in end.body if isinstance(st, ast.Expr) and isinstance(st.value, ast.Call)]
-    txt = ("/-! GENERATED by harness/extract/box.py from hio/base/hier/boxing.py. Do not edit. -/\n"
+    end_calls = []
+    for st in (end.body if end else []):
+        if isinstance(st, ast.Expr) and _self_call(st.value):
+            m, args = _self_call(st.value)
+            end_calls.append(f"{m}<-{_pile_word(args[0]) if args else 'none'}")
+    txt = ("/-! GENERATED by harness/extract/box.py from hio/base/hier/boxing.py. Do not edit.\n"
+           "`m<-k`: method `self.m` is called with the k-th component of the tuple unpacked from `self.exen(…)`. -/\n"
            "namespace Hio.Gen\n"
-           f"def runUnpack : List String := {_lst(unpack)}\n"
-           f"def runExenArgs : List String := {_lst(exen_args)}\n"
-           f"def runTransitCalls : List String := {_lst(calls_in_block)}\n"
-           f"def runAfterScanCalls : List String := {_lst(after_loop)}\n"
+           f"def runExenNear : String := \"{exen_near}\"\n"
+           f"def runTransitCalls : List String := {_lst(block_calls)}\n"
+           f"def runAfterScanCalls : List String := {_lst(after_calls)}\n"
            f"def exenReturn : List String := {_lst(ret)}\n"
            f"def endCalls : List String := {_lst(end_calls)}\n"
            f"def boxRendoLoops : List String := {_lst(_loops(_find(box, 'rendo')))}\n"
